@@ -59,6 +59,10 @@ def engine_val(kind):
 
 def check(rep, an, tier):
     R.rule_alias(rep, an.model, "dreye.api.estimator", "ReceptorEstimator", "sample_in_gamut", "sample_in_hull")
+    if R.rule_facet_pairs(rep, an.model, entry="sample_in_hull(l1=) → proj_P_to_simplex") < 1:
+        rep.undecided("R-COVER", "every pair of a facet's vertices is visited", where="dreye/api/project.py", construct="loop over hull.simplices",
+                      entry="sample_in_hull(l1=)", msg="no loop over the facets of the hull was found in the slice construction")
+    rep.require("R-COVER", 1)
     # the bounds every clause below speaks of are the REGISTERED ones: registration keeps / replaces exactly what it is given
     from .C14 import register_bounds_rule
     register_bounds_rule(rep, an)
@@ -79,15 +83,19 @@ def check(rep, an, tier):
                 seed = ev.d.get("seed")
                 if ev.d.get("multinomial"):
                     engv = ev.d.get("engine")
-                    ok = engv is not None and "seed" in engv.flat().data and not engv.tag("unseeded")
+                    ok = engv is not None and "seed" in (engv.flat().data | engv.flat().shp) and not engv.tag("unseeded")
+                    if sd is None:
+                        ok = True           # no seed requested: nothing to reproduce
                     rep.check("R-SEED", "helper engine of the multinomial allocation is seeded", ok, where=ev.loc, construct=ev.text(),
                               entry=entry, config=cfg,
                               msg="MultinomialQMC ignores its own seed= when an engine is supplied, and the supplied engine is not "
                                   "derived from `seed`: two calls with the same seed allocate different counts")
                     continue
-                ok = seed is not None and "seed" in seed.flat().data
+                ok = seed is not None and "seed" in (seed.flat().data | seed.flat().shp)
+                if sd is None and ev.d.get("qmc") and seed is not None and seed.tag("kind") == "rng" and not ok:
+                    ok = True       # no seed requested: the engine is driven by the call's own fresh generator
                 if sd is None and not ev.d.get("qmc"):
-                    ok = seed is not None and seed.known and seed.const is None      # default_rng(None): documented 'no seed'
+                    ok = seed is None or (seed.known and seed.const is None)      # default_rng(None) / default_rng(): documented 'no seed'
                 rep.check("R-SEED", "generator derived from `seed`", ok, where=ev.loc, construct=ev.text(), entry=entry, config=cfg,
                           msg="a generator/engine on the sampling path is not derived from the seed argument")
             if sd != None:
